@@ -33,13 +33,14 @@ type nativeRedirects struct {
 
 func (e *Engine) buildNativeRedirects(work string) *nativeRedirects {
 	nr := &nativeRedirects{files: map[string]string{}, imports: map[string]string{}}
-	if len(e.cfg.Redirects) == 0 {
+	if len(e.cfg.Redirects) == 0 && len(e.cfg.CallHooks) == 0 {
 		return nr
 	}
 	byKey := map[string]*ssa.Function{}
 	for fn := range ssautil.AllFunctions(e.prog) {
 		k := e.fnKey(fn)
-		if _, ok := e.cfg.Redirects[k]; ok && fn.Syntax() != nil {
+		_, isHook := e.cfg.CallHooks[k]
+		if _, ok := e.cfg.Redirects[k]; (ok || isHook) && fn.Syntax() != nil {
 			if _, isDecl := fn.Syntax().(*ast.FuncDecl); isDecl {
 				byKey[k] = fn
 			}
@@ -61,10 +62,14 @@ func (e *Engine) buildNativeRedirects(work string) *nativeRedirects {
 			keys = append(keys, k)
 		}
 	}
+	for k := range e.cfg.CallHooks {
+		keys = append(keys, k)
+	}
 	sort.Strings(keys)
 	harnessPkg := e.target.Pkg.Path()
 	for _, k := range keys {
 		target := e.cfg.Redirects[k]
+		hookCfg, isHook := e.cfg.CallHooks[k]
 		fn := byKey[k]
 		if fn == nil {
 			nr.problems = append(nr.problems, "no declaration found for redirect "+k)
@@ -131,7 +136,43 @@ func (e *Engine) buildNativeRedirects(work string) *nativeRedirects {
 		}
 		pkgPath := fnPkgPath(fn)
 		var body string
-		if pkgPath == harnessPkg {
+		if isHook {
+			// before-hook; original; after-hook (results passed through)
+			if pkgPath != harnessPkg {
+				nr.problems = append(nr.problems, "call hooks are only supported for functions of the harness package: "+k)
+				continue
+			}
+			nres := 0
+			if decl.Type.Results != nil {
+				for _, f := range decl.Type.Results.List {
+					if len(f.Names) == 0 {
+						nres++
+					} else {
+						nres += len(f.Names)
+					}
+				}
+			}
+			var rs []string
+			for i := 0; i < nres; i++ {
+				rs = append(rs, fmt.Sprintf("vr%d", i))
+			}
+			body = "{\n"
+			if hookCfg.Before != "" {
+				body += fmt.Sprintf("\t%s(%s)\n", hookCfg.Before, allArgs)
+			}
+			if nres > 0 {
+				body += fmt.Sprintf("\t%s := %s\n", strings.Join(rs, ", "), origCall)
+			} else {
+				body += "\t" + origCall + "\n"
+			}
+			if hookCfg.After != "" {
+				body += fmt.Sprintf("\t%s(%s)\n", hookCfg.After, allArgs)
+			}
+			if nres > 0 {
+				body += "\treturn " + strings.Join(rs, ", ") + "\n"
+			}
+			body += "}\n"
+		} else if pkgPath == harnessPkg {
 			body = fmt.Sprintf("{\n\t%s%s(%s)\n}\n", ret, target, allArgs)
 			_ = origCall
 		} else {
